@@ -186,9 +186,22 @@ def h_several(fa, fb, kind, order, bad=None):
     return body
 
 
+def h_poolct(idx):
+    """a case of the shared dense-time online pool (vf/poolct.py)"""
+    def body(env):
+        from .. import poolct
+        outs, res = ct.run_pool_case(env, poolct.CASES[idx], check=('shape',))
+        env.observe('updates', len(outs))
+        return res
+    return body
+
+
 def obligations(tier, rng):
     quick = tier == 'quick'
     out = []
+    from .. import poolct as _pc
+    for _i, _c in enumerate(_pc.CASES):
+        out.append(ob('C17', 'poolct', 'pool-ct-shape/%d/%s/%s' % (_i, text(_c[0]), ';'.join(','.join(map(str, q)) or '-' for q in _c[2])), idx=_i, max_paths=60000, wall=900))
     bq = [(0, 1), (1, 2), (2, 3)]
     dt_all = refsem.f1(bq, arith=True)
     for f in dt_all:
